@@ -7,4 +7,5 @@ MCProg == (1 :> <<[api |-> "set", key |-> "k", val |-> "a", chunks |-> 2]>>) @@
 MCPre == {[key |-> "k", val |-> "old"]}
 NoDebris == {}
 NoKeyShards == <<>>
+NoPreRO == {}
 ====
